@@ -26,8 +26,9 @@ Next ==
            MkPart2("map", k, v, c)
      \/ "MkPart" \in Acts /\ \E k \in Z(IndexLikeIds), v \in Z(ValueLikeIds), c \in Z({o \in CondIds : "key" \notin KindsOf(heap, o)}) :
            MkPart2("list", k, v, c)
-     \/ "MkMol" \in Acts /\ \E k \in Z(KeyLikeIds), k2 \in Z(IndexLikeIds), v \in Z(ValueLikeIds), c \in Z(ValueLikeIds) :
-           MkMol(k, k2, v, c)
+     \/ "MkMol" \in Acts /\ \E k \in Z(KeyLikeIds), k2 \in Z(IndexLikeIds), v \in Z(ValueLikeIds), c \in Z(ValueLikeIds),
+                                   lc \in Z(IndexLikeIds), mc \in Z(KeyLikeIds) :
+           MkMol(k, k2, v, c, lc, mc)
      \/ "PartFilter" \in Acts /\ \E p \in {o \in Ids : heap[o].kind = "mol"}, isList \in BOOLEAN : PartFilter(p, isList)
 Spec == Init /\ [][Next]_<<heap, last>>
 
